@@ -197,10 +197,28 @@ func (e *env) apply(s step) {
 	}
 }
 
-func runBehaviour(t *testing.T, steps []step, nc, nr, limit int) (out []map[string]any) {
+// trace is an unbuffered ndjson writer: whatever was observed before a hang stays on disk.
+type trace struct {
+	mu sync.Mutex
+	f  *os.File
+}
+
+func (t *trace) Emit(ev map[string]any) {
+	b, err := json.Marshal(ev)
+	if err != nil {
+		panic(err)
+	}
+	t.mu.Lock()
+	t.f.Write(append(b, '\n'))
+	t.mu.Unlock()
+}
+func (t *trace) Reset() { t.Emit(map[string]any{"ev": "reset"}) }
+func (t *trace) Close() { t.f.Close() }
+
+func runBehaviour(t *testing.T, tr *trace, steps []step, nc, nr, limit int) {
 	defer func() {
 		if p := recover(); p != nil {
-			out = append(out, map[string]any{"ev": "panic", "msg": fmt.Sprint(p)})
+			tr.Emit(map[string]any{"ev": "panic", "msg": fmt.Sprint(p)})
 		}
 	}()
 	synctest.Test(t, func(t *testing.T) {
@@ -227,7 +245,7 @@ func runBehaviour(t *testing.T, steps []step, nc, nr, limit int) (out []map[stri
 		for _, s := range steps {
 			e.apply(s)
 			settle()
-			out = append(out, e.observe(s))
+			tr.Emit(e.observe(s))
 		}
 		// cleanup: let every handler return, cancel every RPC, close everything
 		for c := 0; c < nc; c++ {
@@ -240,14 +258,29 @@ func runBehaviour(t *testing.T, steps []step, nc, nr, limit int) (out []map[stri
 			}
 		}
 		synctest.Wait()
+		fin := e.observe(step{A: "final"})
+		fin["ev"] = "final"
+		tr.Emit(fin)
 		for _, cc := range e.cc {
 			cc.Close()
 		}
-		e.srv.Stop()
+		stopped := make(chan struct{})
+		go func() { e.srv.Stop(); close(stopped) }()
+		synctest.Wait()
+		select {
+		case <-stopped:
+		default:
+			// every handler was released and every RPC cancelled, yet Stop does not return: goroutines of
+			// the server are stuck for good and the bubble can never end.  Record it and give up (the
+			// orchestrator reports inconclusive unless TLC already found a violated clause).
+			tr.Emit(map[string]any{"ev": "stuck"})
+			tr.Close()
+			fmt.Println("VERIF_ABORT server stuck in cleanup; trace flushed (exit code 0 so that the trace is judged: PASS of the driver as a program)")
+			os.Exit(0)
+		}
 		e.lis.Close()
 		synctest.Wait()
 	})
-	return out
 }
 
 func TestVerifC25Replay(t *testing.T) {
@@ -255,10 +288,11 @@ func TestVerifC25Replay(t *testing.T) {
 	if err != nil {
 		t.Fatal(err)
 	}
-	tr, err := vlib.NewTrace(os.Getenv("VERIF_OUT"))
+	f, err := os.Create(os.Getenv("VERIF_OUT"))
 	if err != nil {
 		t.Fatal(err)
 	}
+	tr := &trace{f: f}
 	defer tr.Close()
 	nc, nr, limit := vlib.EnvInt("VERIF_NC", 2), vlib.EnvInt("VERIF_NR", 2), vlib.EnvInt("VERIF_LIMIT", 1)
 	for i, ln := range lines {
@@ -268,9 +302,7 @@ func TestVerifC25Replay(t *testing.T) {
 			t.Fatal(err)
 		}
 		tr.Reset()
-		for _, ev := range runBehaviour(t, steps, nc, nr, limit) {
-			tr.Emit(ev)
-		}
+		runBehaviour(t, tr, steps, nc, nr, limit)
 	}
 	fmt.Printf("VERIF_SUMMARY {\"behaviours\":%d}\n", len(lines))
 }
